@@ -115,13 +115,13 @@ PROPS = {
                      extra_streams=[rounds("interleave", 600, 6000, ["hook-sync", "hook-finalize"])]),
     "C09": sync_prop(C09T, ["create-revision", "update-revision", "delete-revision"],
                      "non-trivial = a ControllerRevision was written in the sync" + RULE_ROUNDS, ["revisions", "children"],
-                     extra_streams=[rounds("crash", 36, 360, ["rounds-crash", "create-revision", "update-revision", "delete-revision"])]),
+                     extra_streams=[rounds("crash", 60, 360, ["rounds-crash", "create-revision", "update-revision", "delete-revision"])]),
     "C07": sync_prop(C07T, ["update-revision", "create-revision", "delete-revision"],
                      "non-trivial = a ControllerRevision was written (claims moved, revision created or pruned)" + RULE_ROUNDS, ["revisions", "children", "status", "hook"],
-                     extra_streams=[rounds("rollout", 36, 360, ["update-revision", "create-revision", "delete-revision"])]),
+                     extra_streams=[rounds("rollout", 60, 360, ["update-revision", "create-revision", "delete-revision"])]),
     "C08": sync_prop(C08T, ["rounds-rollout", "update-revision"],
                      "non-trivial = a whole rollout scenario (summary line), or a sync that wrote a ControllerRevision" + RULE_ROUNDS, ["revisions", "children", "status"],
-                     extra_streams=[rounds("rollout", 36, 360, ["rounds-rollout", "update-revision"])]),
+                     extra_streams=[rounds("rollout", 60, 360, ["rounds-rollout", "update-revision"])]),
     "C11": sync_prop(C11T, ["updateStatus-parent", "failed-updateStatus"],
                      "non-trivial = a parent status write was attempted" + RULE_INTERLEAVE, ["status", "outcome"],
                      extra_streams=[rounds("interleave", 600, 6000, ["updateStatus-parent", "failed-updateStatus"])]),
@@ -149,6 +149,22 @@ PROPS = {
                                      "waiting is expectation-guided (until every registered handler got the event, 5 s ceiling) plus a 25 ms settle window for stray deliveries"],
         "assumptions": ["every subscription is closed at most once and handlers are added through open subscriptions", "per-handler resync timers never fire within a scenario (periods of minutes)"],
     },
+    "C20": {
+        "theorems": [("Mc.Props.C20", "Mc.C20." + t) for t in ["inv_init", "C20_failed_construction_net_zero", "inv_reconcile", "C20_no_leak", "C20_all_stopped_no_subs",
+                     "C20_noop_update", "C20_delete_stops", "C20_follows_spec", "C20_others_untouched", "C20_restart_stops_old"]],
+        "streams": [{"pkg": "pkg/controller/composite", "test": "TestVerifMeta", "shards": 16, "n_quick": 48, "n_thorough": 480, "thorough_seeds": 2, "nontrivial": ["stopped"]},
+                    {"pkg": "pkg/controller/decorator", "test": "TestVerifMeta", "shards": 16, "n_quick": 48, "n_thorough": 480, "thorough_seeds": 2, "nontrivial": ["stopped"]}],
+        "nontrivial": ["stopped"],
+        "rule": "histories of 3-7 events (create, spec-changing update, update that leaves the spec alone, delete) over two controller names, specs drawn from constructible classes "
+                "(different child sets, ETag block with each optional field set or unset, finalize hook) and classes that cannot start (unknown parent resource, parent CRD without status "
+                "subresource, unknown child resource, no hooks, unusable webhook, invalid selector); the real Reconcile of both meta-controllers runs over the controller-runtime fake "
+                "client, the real informer factory and real hosted controllers against the simulated API server; after every event: running instances and their spec version, hook URLs "
+                "called after a parent was poked, the factory's subscription counts; non-trivial = some instance was stopped in the history; distinct = distinct event list",
+        "trusted_base": TB_COMMON + ["controller-runtime fake client, simulated API server with LIST/WATCH, in-process webhook server; client-go informers and work queues run for real",
+                                     "waiting is expectation-guided (every running instance must call its hook after the poke, 5 s ceiling) plus a 60 ms settle window for calls from stopped instances"],
+        "assumptions": ["goroutine termination inside Stop() is observed (no hook call on a stopped instance's URL after Reconcile returned), not modelled",
+                        "one reconcile at a time per meta-controller (controller-runtime runs a single worker for each)"],
+    },
     "C15": sync_prop(C15T, ["hook-customize", "related-selected"],
                      "non-trivial = the customize hook was called in the sync, or (event stream) the related object is selected by some parent's rules" + RULE_EVENTS,
                      ["hook", "outcome", "events"], extra_streams=[events("composite", 600, 6000, ["related-selected", "related-add", "related-update", "related-delete"])]),
@@ -164,7 +180,8 @@ PROPS = {
                      extra_streams=[rounds("malformed", 800, 8000, ["outcome-error", "hook-sync", "hook-finalize"])]),
     "C10": sync_prop(C10T + C10ST, ["update-parent", "hook-finalize", "create-child"],
                      "non-trivial = the parent was edited, the finalize hook called, or a child created" + RULE_ROUNDS, ["finalizer", "parent", "hook", "children"],
-                     extra_streams=[rounds("faults", 96, 960, ["update-parent", "hook-finalize", "create-child", "failed-update"])]),
+                     extra_streams=[rounds("faults", 96, 960, ["update-parent", "hook-finalize", "create-child", "failed-update"]),
+                                    rounds("rollout", 60, 360, ["update-parent", "hook-finalize", "create-child"])]),
 
     "C05": {
         "theorems": [
